@@ -805,7 +805,11 @@ def write_evidence(prop, tier, seed, coverage, wall, violations, assumptions, le
         "wall_s": round(wall, 2),
         "violations": int(violations),
     }
-    tmp = os.path.join(EVID, prop + ".json.tmp")
+    # runs against a scratch copy of the repository (COCLS_REPO=..., used by bin/selftest, tools/mutest.sh and
+    # tools/seedcheck.sh) must not overwrite the evidence of the real tree
+    evid = EVID if os.path.realpath(REPO) == "/repo" else os.path.join(EVID, "scratch")
+    os.makedirs(evid, exist_ok=True)
+    tmp = os.path.join(evid, "%s.json.tmp%d" % (prop, os.getpid()))
     with open(tmp, "w") as f:
         json.dump(ev, f, indent=1, sort_keys=True)
-    os.replace(tmp, os.path.join(EVID, prop + ".json"))
+    os.replace(tmp, os.path.join(evid, prop + ".json"))
